@@ -33,6 +33,19 @@
 #include "ec_base.c"
 #else
 /* a^254 = a^-1 for a != 0, and 0 for a == 0: product of a^2, a^4, ..., a^128 */
+#ifdef LEAF_INV_BY_CONSTRAINT
+/* the unique v with a*v == 1 (exists for every a != 0: C12 H_INV exhibits it) */
+uint8_t nondet_leaf_u8(void);
+static inline uint8_t
+spec_gf_inv(uint8_t a)
+{
+        if (!a)
+                return 0;
+        uint8_t v = nondet_leaf_u8();
+        __CPROVER_assume(spec_gf_mul(a, v) == 1);
+        return v;
+}
+#else
 static inline uint8_t
 spec_gf_inv(uint8_t a)
 {
@@ -43,6 +56,7 @@ spec_gf_inv(uint8_t a)
         }
         return a ? r : 0;
 }
+#endif
 #define _EC_BASE_H_
 #ifndef GF_LARGE_TABLES
 #define GF_LARGE_TABLES
